@@ -23,6 +23,9 @@ const HI: u16 = 49155;
 #[derive(Clone, Copy, Debug, PartialEq, Eq)]
 enum Cmd {
     UdpBind(u16),
+    /// bind 127.0.0.1:<port> (a fixed port inside the ephemeral range)
+    UdpBindLo(u16),
+    TcpListenLo(u16),
     TcpListen(u16),
     TcpConnect,
     Drop(usize),
@@ -97,6 +100,22 @@ pub fn ports_scenario(ch: &mut Chooser, thorough: bool) -> Exec {
                             }
                             Err(e) => format!("err {}", errk(&e)),
                         },
+                        Cmd::UdpBindLo(p) => match UdpSocket::bind(("127.0.0.1", p)).await {
+                            Ok(s) => {
+                                let port = s.local_addr().unwrap().port();
+                                objs.push(Some(Obj::Udp(s)));
+                                format!("ok {port}")
+                            }
+                            Err(e) => format!("err {}", errk(&e)),
+                        },
+                        Cmd::TcpListenLo(p) => match TcpListener::bind(("127.0.0.1", p)).await {
+                            Ok(s) => {
+                                let port = s.local_addr().unwrap().port();
+                                objs.push(Some(Obj::Listener(s)));
+                                format!("ok {port}")
+                            }
+                            Err(e) => format!("err {}", errk(&e)),
+                        },
                         Cmd::TcpListen(p) => match TcpListener::bind(("0.0.0.0", p)).await {
                             Ok(s) => {
                                 let port = s.local_addr().unwrap().port();
@@ -145,6 +164,8 @@ pub fn ports_scenario(ch: &mut Chooser, thorough: bool) -> Exec {
             ("tcp listen :0".into(), Some(Cmd::TcpListen(0))),
             ("tcp listen :49153".into(), Some(Cmd::TcpListen(LO + 1))),
             ("tcp connect peer:80".into(), Some(Cmd::TcpConnect)),
+            ("udp bind 127.0.0.1:49154".into(), Some(Cmd::UdpBindLo(LO + 2))),
+            ("tcp listen 127.0.0.1:49154".into(), Some(Cmd::TcpListenLo(LO + 2))),
             ("crash + bounce".into(), None),
         ];
         for k in 0..live.len().min(4) {
@@ -214,8 +235,8 @@ pub fn ports_scenario(ch: &mut Chooser, thorough: bool) -> Exec {
             break 'run;
         }
         match cmd {
-            Cmd::UdpBind(p) | Cmd::TcpListen(p) => {
-                let udp = matches!(cmd, Cmd::UdpBind(_));
+            Cmd::UdpBind(p) | Cmd::TcpListen(p) | Cmd::UdpBindLo(p) | Cmd::TcpListenLo(p) => {
+                let udp = matches!(cmd, Cmd::UdpBind(_) | Cmd::UdpBindLo(_));
                 let kind = if udp { MKind::Udp } else { MKind::Listener };
                 if p == 0 {
                     match res.strip_prefix("ok ").and_then(|x| x.parse::<u16>().ok()) {
